@@ -367,6 +367,14 @@ class Interp:
             opened = []
             for item in s.items:
                 cm = self.expr(item.context_expr, env, mod)
+                if isinstance(cm, Obj) and cm.cls is not None and self.prog.lookup_method(cm.cls.qn, '__exit__') is not None:
+                    # a context manager class of the repository: its own __enter__ / __exit__ are evaluated
+                    ent = self.prog.lookup_method(cm.cls.qn, '__enter__')
+                    v = self.invoke(ent, [], {}, cm) if ent is not None else cm
+                    opened.append(('#repo', cm))
+                    if item.optional_vars is not None:
+                        self.assign(item.optional_vars, v, env, mod)
+                    continue
                 if not (_is_model(cm) or _foreign(self, cm)):
                     raise Unsupported('with %s' % ast.unparse(item.context_expr)[:40])
                 v = cm.__enter__() if hasattr(cm, '__enter__') else cm
@@ -377,7 +385,9 @@ class Interp:
                 self.block(s.body, env, mod)
             finally:
                 for cm in reversed(opened):
-                    if hasattr(cm, '__exit__'):
+                    if isinstance(cm, tuple) and cm[0] == '#repo':
+                        self.invoke(self.prog.lookup_method(cm[1].cls.qn, '__exit__'), [None, None, None], {}, cm[1])
+                    elif hasattr(cm, '__exit__'):
                         cm.__exit__(None, None, None)
         elif isinstance(s, ast.FunctionDef):
             env[s.name] = ('#def', s, env, mod)
